@@ -748,7 +748,10 @@ pub fn validate_json_for_entity(
             let name = f.0;
             let field = f.1;
             let short_name = &field.short_name;
-            if !field.is_system {
+            //an explicit null is a valid value of a nullable field: this is what the local mutation path writes
+            let explicit_null =
+                field.nullable && json.get(short_name).map(|v| v.is_null()).unwrap_or(false);
+            if !field.is_system && !explicit_null {
                 match field.field_type {
                     FieldType::Boolean => {
                         match json.get(short_name) {
